@@ -13,7 +13,7 @@ import inspect
 
 from vlib import cpbind, faults, realfn, scenarios, universe
 from vlib.framework import Stats, hyp_search
-from vlib.universe import Par
+from vlib.universe import Par, PO, POK, KWO
 from checks import c15
 
 LEVEL = 'fault_enumeration'
@@ -115,6 +115,41 @@ def check_algebra(op, specs, args, stats, enum=False):
                 stats.fail('C16/A/%s/aliasing' % op, case, '%s -> %s shares %s with input %d' % (desc, r, what, i))
                 break
         stats.sample('A/%s' % op, {'call': desc, 'result': str(r)})
+        if op in ('merge', 'embed', 'forwards') and len(r.sources.get('+depths', {})) >= 2:
+            follow_ups(r, sigs, case, desc, stats)
+
+
+def follow_ups(r, sigs, case, desc, stats):
+    """The result of one operation as the input of the next: it carries provenance from several callables at several depths,
+    and the second operation may take away everything one of them contributed."""
+    from sigtools import signatures
+    ps = list(r.parameters.values())
+    npos = sum(1 for q in ps if q.kind in (PO, POK))
+    kwn = [q.name for q in ps if q.kind in (POK, KWO)]
+    ops = [('mask(r, %d)' % k, lambda k=k: signatures.mask(r, k)) for k in range(npos + 1)]
+    ops += [('mask(r, 0, %r)' % x, lambda x=x: signatures.mask(r, 0, x)) for x in kwn[:3]]
+    if len(kwn) >= 2:
+        ops.append(('mask(r, 0, %s)' % ', '.join(map(repr, kwn)), lambda: signatures.mask(r, 0, *kwn)))
+    ops.append(('mask(r, 0, hide_args=True, hide_kwargs=True)', lambda: signatures.mask(r, 0, hide_args=True, hide_kwargs=True)))
+    ops.append(('merge(r, input 0)', lambda: signatures.merge(r, sigs[0])))
+    ops.append(('embed(r, last input)', lambda: signatures.embed(r, sigs[-1])))
+    ops.append(('forwards(r, last input, 1)', lambda: signatures.forwards(r, sigs[-1], 1)))
+    ops.append(('apply_params(r, *sort_params(r))', lambda: signatures.apply_params(r, *signatures.sort_params(r))))
+    for label, fn in ops:
+        stats.case()
+        before = sig_snapshot(r)
+        try:
+            r2 = fn()
+        except ValueError:
+            r2 = None
+        stats.cls('A/second operation on a result/%s' % ('raised' if r2 is None else 'returned'))
+        if sig_snapshot(r) != before:
+            stats.fail('C16/A/second-operation/input-modified', dict(case, second=label), 'r = %s -> %s (depths %r); then %s modified r: depths now %r' % (
+                desc, r, sorted(before[5]), label, sorted(sig_snapshot(r)[5])))
+            return
+        if r2 is not None and containers(r2) & containers(r):
+            stats.fail('C16/A/second-operation/aliasing', dict(case, second=label), 'r = %s -> %s; %s -> %s shares a provenance container with r' % (desc, r, label, r2))
+            return
 
 
 def shard_algebra(arg):
